@@ -23,7 +23,7 @@ More == { X(1, <<1>>, 22), X(1, <<1>>, 23), X(1, <<1>>, 308), X(1, <<5>>, 0 - 32
           X(1, <<9, 0, 0, 7, 1, 9, 9, 2, 5, 4, 7, 4, 0, 9, 9, 4>>, 0), X(1, <<4, 5, 0, 3, 5, 9, 9, 6, 2, 7, 3, 7, 0, 4, 9, 6, 5>>, 0 - 1), X(1, <<1, 8, 4, 4, 6, 7, 4, 4, 0, 7, 3, 7, 0, 9, 5, 5, 1, 6, 1, 6>>, 0),
           X(1, <<3>>, 0), X(1, <<1, 0, 0, 0, 0, 0, 0, 0, 0, 0, 0, 0, 0, 0, 0, 1>>, 0), X(1, <<3, 3, 3, 3, 3, 3, 3, 3, 3, 3, 3, 3, 3, 3, 3, 3>>, 0 - 16), X(0 - 1, <<1>>, 300), X(1, <<2>>, 0 - 308), X(1, <<6>>, 0) }
 Operands == IF Depth >= 2 THEN Core \cup More ELSE Core
-Ops == {"+", "-", "*", "/", "%", "<", "<=", ">", ">=", "=", "!=", "&"}
+Ops == {"+", "-", "*", "/", "%", "<", "<=", ">", ">=", "=", "!=", "&", ".."}
 
 Op(op, x, y, nx, ny) == [mode |-> "num", flags |-> [calls |-> <<[fn |-> "op", op |-> op, xd |-> x, yd |-> y] @@ (IF nx = 0 THEN <<>> ELSE [nudge |-> nx]) @@ (IF ny = 0 THEN <<>> ELSE [ynudge |-> ny])>>]]
 
